@@ -132,6 +132,9 @@ def unrefrace(rng):
         k = rng.randint(2, 6)
         lines += ["T %d: write %d" % (h, 300 + h), "T %d: exit %d" % (h, h), "new %d 1" % h]
         order = rng.choice(["after-join", "while-running", "thread-exit-joins-the-race"])
+        if rng.random() < 0.25:
+            # references taken and dropped by several threads at once while the handle is held: the count must come out unchanged
+            lines += ["refchurn %d %d" % (h, rng.randint(2, 4))]
         if order == "after-join":
             lines += ["ref %d" % h] * (k - 1) + ["go %d 1" % h, "go %d 2" % h, "join %d" % h, "unrefrace %d %d" % (h, k)]
         elif order == "while-running":
